@@ -8,7 +8,7 @@
 (*     predicts like it.                                                                                         *)
 (*   Impl layer (how the present code lays the file out): tables present and their row counts after every step   *)
 (*     equal db[path] of the variant (DropTables, SaveAll) - this identifies the implemented variant.            *)
-(* Events: Reset{h} | Write{p,k,s,tag,resc,mut,sh{field:[[dims]..]}} | Tables{p,t{table:rows}} |                  *)
+(* Events: Reset{h} | Write{p,k,s,tag,resc,sh{field:[[dims]..]}} | Mut{p,k,tag,mut} | Tables{p,t{table:rows}} |     *)
 (*         Read{p,k,rc,fs[field..]} | Field{p,k,f,d[[dims]..],c[[tag,err]..]} | Pred{p,k,c[[tag,err]..]} | Crash   *)
 (*   c lists, for every model of that kind written earlier in the history (tag = its step) whose dims equal the   *)
 (*   read-back ones, err = max |read-written|/max(1,|written|) in units of 1e-18 (saturating at 2e9); WHICH of     *)
@@ -26,14 +26,16 @@ TReset == /\ l <= Len(Tr) /\ Ev.e = "Reset" /\ Step
           /\ db' = [p \in Paths |-> EmptyFile]
           /\ lastw' = [p \in Paths |-> [k \in Kinds |-> NoWrite]] /\ lastkind' = [p \in Paths |-> "none"]
 
-\* writing never modifies the in-memory model (checksum over dims and bit patterns before/after)
-PropWrite(ev) == PropOff \/ ev.mut = 0
 TWrite == /\ l <= Len(Tr) /\ Ev.e = "Write" /\ Step
           /\ Ev.p \in Paths /\ Ev.k \in Kinds /\ DOMAIN Ev.sh = ModelFields(Ev.k)
           /\ db' = [db EXCEPT ![Ev.p] = FileWrite(@, Ev.k, Ev.sh, Ev.tag)]
           /\ lastw' = [lastw EXCEPT ![Ev.p][Ev.k] = [sh |-> Ev.sh, tag |-> Ev.tag, resc |-> Ev.resc]]
           /\ lastkind' = [lastkind EXCEPT ![Ev.p] = Ev.k]
-          /\ PropWrite(Ev)
+
+\* writing never modifies the in-memory model (checksum over dims and bit patterns before/after the Write just logged)
+PropMut(ev) == PropOff \/ (ev.mut = 0 /\ ev.tag = lastw[ev.p][ev.k].tag)
+TMut == /\ l <= Len(Tr) /\ Ev.e = "Mut" /\ Step /\ UNCHANGED <<db, lastw, lastkind>>
+        /\ PropMut(Ev)
 
 \* the real file after the step: same tables, same number of rows as the model's file
 ImplTables(ev) == ImplOff \/ ev.t = RowCounts(db[ev.p])
@@ -68,7 +70,7 @@ TPred == /\ l <= Len(Tr) /\ Ev.e = "Pred" /\ Step /\ UNCHANGED <<db, lastw, last
 TCrash == /\ l <= Len(Tr) /\ Ev.e = "Crash" /\ Step /\ UNCHANGED <<db, lastw, lastkind>>
           /\ PropOff
 
-TNext == TReset \/ TWrite \/ TTables \/ TRead \/ TField \/ TPred \/ TCrash
+TNext == TReset \/ TWrite \/ TMut \/ TTables \/ TRead \/ TField \/ TPred \/ TCrash
 TSpec == TInit /\ [][TNext]_tvars
 TraceAccepted == Accepted
 Diag == ShowCursor(l)
